@@ -36,7 +36,10 @@ MANIFEST = dict(
           "both map shapes, nested plugin / list->composite, product config mutated between calls, plus the real `rps` list/composite entries) "
           "and TLC validates each observed run against the invariants and the model's exact observable. This is the right level: the statement "
           "is a cross product over registration shapes and call histories, which the unit tests only sample on the first product."),
-    note=("Exhaustive over the stated finite space (calls <= 3, thorough 4; one nested level incl. a plugin list of length 0, one config layout). "
+    note=("How a constructor gets into the registry is a dimension: Registry.Register or each helper of core/register (RegisterPtr, Provider, "
+          "Limiter, Gun, Aggregator, DataSource, DataSink) called for real with constructors of every shape, with and without default-config "
+          "func (negative control: a helper that drops the default func). "
+          "Exhaustive over the stated finite space (calls <= 3, thorough 4; one nested level incl. a plugin list of length 0, one config layout). "
           "The registry as an object (PluginRegistryApi.tla): sequences of Register operations - duplicates, the same name under another type, "
           "37 constructor type descriptors incl. variadic / pointer-vs-value receiver / malformed ones, 9 default-config arguments - with Lookup, "
           "LookupFactory, New, NewFactory probed after every operation on a fresh real registry (2 430 cases quick, 4 158 thorough, five negative "
@@ -46,14 +49,15 @@ MANIFEST = dict(
 INVS = ["IsCase", "Conforms", "PConfigRight", "PNoSpuriousFailure", "PFailureReaches", "PPanicRule",
         "PFreshPerProduct", "POncePerFactory"]
 NEGS = ["PluginRegistry_neg_typeonly.cfg", "PluginRegistry_neg_mapcopy.cfg", "PluginRegistry_neg_cache.cfg", "PluginRegistry_neg_nodefault.cfg",
-        "PluginRegistry_neg_panic.cfg"]
+        "PluginRegistry_neg_panic.cfg", "PluginRegistry_neg_helperdrops.cfg"]
 
 
 def case_sig(c):
     return ("reg=%s ret=%s cfg=%s cerr=%s ferr=%s dflt=%s form=%s fail=%s nested=%s shape=%s calls=%s mutate=%s" % (
         c["reg"], c["ret"], c["cfg"], int(c["cerr"]), int(c["ferr"]), int(c["dflt"]), c["form"], c["fail"], c["nested"],
         c["shape"], "1" if c["calls"] == 1 else ">=2", int(c["mutate"])) +
-            ("" if (c.get("user", "set"), c.get("dv", "valid")) == ("set", "valid") else " user=%s defaults=%s" % (c["user"], c["dv"])))
+            ("" if (c.get("user", "set"), c.get("dv", "valid")) == ("set", "valid") else " user=%s defaults=%s" % (c["user"], c["dv"])) +
+            ("" if c.get("how", "Register") == "Register" else " registered-through=register.%s" % c["how"]))
 
 
 def validate(v, obs_path, rows, workers=8):
